@@ -35,7 +35,7 @@ ASSUMPTIONS = [
 ]
 MINIMA = {"quick": {"reads_compared": 3000, "missing_parent_refusals": 10, "sectors_from_lower_layers": 20000,
                     "vhdx_partial_blocks": 40, "snapshot_view_reads": 100, "vhdx_beyond_first_chunk_cases": 3},
-          "thorough": {"reads_compared": 30000}}
+          "thorough": {"reads_compared": 300000}}
 MECH = "chain.read"
 DATA = os.path.join(os.environ.get("VF_REPO", "/repo"), "tests", "data")
 
@@ -43,7 +43,7 @@ DATA = os.path.join(os.environ.get("VF_REPO", "/repo"), "tests", "data")
 def plan(tier: str, seed: int) -> list[dict]:
     rng = rng_for(seed, ID, "plan")
     cases = []
-    mult = 1 if tier == "quick" else 12
+    mult = 1 if tier == "quick" else 50
     i = 0
     for _ in range(14 * mult):
         cases.append({"k": "vhdx-diff", "i": (i := i + 1), "depth": rng.choice([2, 2, 3, 4]), "ss": rng.choice([512, 512, 4096]),
